@@ -7,6 +7,11 @@
 //@item src/charwise/mapper.rs struct CodeMapper
 //@item src/lib.rs struct Output
 //@item src/lib.rs enum MatchKind
+//@rules keepeq
+//@pre{
+#[derive(Structural)]
+//@}
+//@end
 //@item src/charwise.rs struct CharwiseDoubleArrayAhoCorasick
 //@include ghost_cw.rs
 
